@@ -18,11 +18,12 @@ func init() { register("C12", c12) }
 
 type sorterOracle struct {
 	absint.BaseOracle
-	c        *core.Ctx
-	ordered  types.Type
-	priority types.Type
-	sortFn   *ssa.Function // sort2.Slice origin
-	cmpBad   []string
+	c            *core.Ctx
+	ordered      types.Type
+	priority     types.Type
+	sortFn       *ssa.Function // sort2.Slice origin
+	sortFnOpaque bool          // model sort2.Slice itself instead of interpreting its body down to sort.Slice
+	cmpBad       []string
 }
 
 func (o *sorterOracle) TypeTest(ip *absint.Interp, v absint.Value, T types.Type) (bool, bool) {
@@ -48,7 +49,28 @@ func (o *sorterOracle) Call(ip *absint.Interp, site ssa.CallInstruction, args []
 		}
 		return t.Attr["order"], true
 	}
-	if core.IsCallTo(com, o.sortFn) {
+	if core.IsExtCall(com, "sort.Slice") || core.IsExtCall(com, "sort.SliceStable") {
+		// the standard sorts, modelled as a stable insertion sort under the interpreted index comparator
+		l, ok := args[0].(*absint.List)
+		if !ok {
+			return nil, false
+		}
+		n := len(l.Elems)
+		less := func(i, j int) bool {
+			r, ok := ip.CallValue(args[1], absint.Int(i), absint.Int(j)).(absint.Bool)
+			if !ok {
+				panic(&absint.Undecided{Msg: "index comparator did not return a boolean"})
+			}
+			return bool(r)
+		}
+		for i := 1; i < n; i++ {
+			for j := i; j > 0 && less(j, j-1); j-- {
+				l.Elems[j], l.Elems[j-1] = l.Elems[j-1], l.Elems[j]
+			}
+		}
+		return nil, true
+	}
+	if core.IsCallTo(com, o.sortFn) && o.sortFnOpaque {
 		l, ok := args[0].(*absint.List)
 		if !ok {
 			return nil, false
@@ -72,7 +94,7 @@ func (o *sorterOracle) Call(ip *absint.Interp, site ssa.CallInstruction, args []
 }
 
 var sorterClasses = []string{"P", "O", "U", "Q"}
-var sorterOrders = []int64{-1, 0, 1}
+var sorterOrders = []int64{-9223372036854775808, -1, 0, 1, 9223372036854775807} // extremes: comparators written as a subtraction overflow here
 
 func sorterKinds() (out [][2]any) {
 	for _, c := range sorterClasses {
@@ -106,7 +128,7 @@ func rank(class string) int {
 func c12(c *core.Ctx, r *core.Report) {
 	ro := c.Roles()
 	r.Explanation = "C12 ordering contract: (R1-R3) SortOrderedComponents is interpreted abstractly on every participant list up to the bound over {priority-ordered, ordered, unordered, priority-without-order} x Order in {-1,0,1} and the result compared with the contract (permutation, class grouping, non-decreasing Order); (R4) sort2.Slice maps the element comparator onto sort.Slice indexes faithfully; (R5) every loop that invokes post-processors, runners or loaders iterates, forward and synchronously, a slice with sorter provenance. Decides the contract's shape and its use at all call sites; does not decide sort.Slice itself or user participants' Order() purity."
-	r.Assumptions = []string{"sort.Slice / sort.SliceStable sort with respect to the comparator they are given", "Order() of a participant is a pure function", "reflect-free: type tests answer from static class"}
+	r.Assumptions = []string{"sort.Slice / sort.SliceStable sort with respect to the comparator they are given (modelled as a stable insertion sort)", "Order() of a participant is a pure function", "reflect-free: type tests answer from static class"}
 	sorter := ro.Sorter
 	if sorter == nil {
 		r.Undecided("C12.R1", "role:Sorter", "", "framework_helper.SortOrderedComponents not found")
@@ -138,110 +160,13 @@ func c12(c *core.Ctx, r *core.Report) {
 		instList = append(instList, f)
 	}
 	sort.Slice(instList, func(i, j int) bool { return instList[i].String() < instList[j].String() })
-	maxLen := 3
+	maxLen := 2
 	if c.Tier == "thorough" {
-		maxLen = 4
+		maxLen = 3
 	}
-	kinds := sorterKinds()
 	totalRuns := 0
 	for _, inst := range instList {
-		name := core.FnName(inst) + "[" + typeArgs(inst) + "]"
-		bad := map[string][]string{}
-		runs := 0
-		undec := ""
-		var rec func(prefix []int)
-		rec = func(prefix []int) {
-			if undec != "" {
-				return
-			}
-			// run on prefix
-			in := &absint.List{}
-			for i, k := range prefix {
-				in.Elems = append(in.Elems, mkSorterTok(i, kinds[k]))
-			}
-			if len(prefix) == 0 {
-				in.IsNil = true
-			}
-			orc := &sorterOracle{c: c, ordered: ordN, priority: priN, sortFn: sortFn}
-			ip := absint.New(orc)
-			ip.IsLog = core.IsLogCall
-			ip.InScope = c.InScope
-			orig := append([]absint.Value(nil), in.Elems...)
-			out := ip.Run(inst, []absint.Value{in}, nil)
-			runs++
-			label := absint.Show(&absint.List{Elems: orig})
-			switch {
-			case out.Undecided != nil:
-				undec = out.Undecided.Msg
-				return
-			case out.Panic != nil:
-				addBad(bad, "R1 total", label+" => panic "+out.Panic.Msg)
-			default:
-				res, ok := out.Ret[0].(*absint.List)
-				if !ok {
-					addBad(bad, "R1 permutation", label+" => "+absint.Show(out.Ret[0]))
-					break
-				}
-				// permutation
-				cnt := map[absint.Value]int{}
-				for _, e := range orig {
-					cnt[e]++
-				}
-				perm := len(res.Elems) == len(orig)
-				for _, e := range res.Elems {
-					cnt[e]--
-					if cnt[e] < 0 {
-						perm = false
-					}
-				}
-				if !perm {
-					addBad(bad, "R1 permutation", label+" => "+absint.Show(res))
-					break
-				}
-				// grouping and order
-				prevRank, prevOrder := -1, int64(-99)
-				for _, e := range res.Elems {
-					t := e.(*absint.Tok)
-					rk := rank(t.Class)
-					if rk < prevRank {
-						addBad(bad, "R2 grouping", label+" => "+absint.Show(res))
-						break
-					}
-					if rk > prevRank {
-						prevOrder = -99
-					}
-					if rk < 2 {
-						o := int64(t.Attr["order"].(absint.Int))
-						if o < prevOrder {
-							addBad(bad, "R3 non-decreasing Order", label+" => "+absint.Show(res))
-							break
-						}
-						prevOrder = o
-					}
-					prevRank = rk
-				}
-			}
-			if len(prefix) < maxLen {
-				for k := range kinds {
-					rec(append(append([]int(nil), prefix...), k))
-				}
-			}
-		}
-		rec(nil)
-		totalRuns += runs
-		if undec != "" {
-			r.Undecided("C12.R1", "sorter:"+name, c.FnPos(inst), "abstract interpretation left the model: "+undec)
-			continue
-		}
-		for _, rule := range []string{"R1 total", "R1 permutation", "R2 grouping", "R3 non-decreasing Order"} {
-			id := "C12." + strings.Fields(rule)[0]
-			cons := "sorter:" + name + ":" + strings.Join(strings.Fields(rule)[1:], "-")
-			if w := bad[rule]; len(w) > 0 {
-				r.Fail(id, cons, c.FnPos(inst), fmt.Sprintf("%d of %d abstract inputs violate '%s'", len(w), runs, rule), firstN(w, 4)...)
-			} else {
-				r.Hold(id, cons, c.FnPos(inst), fmt.Sprintf("all %d abstract lists (len<=%d over %d kinds) satisfy '%s'", runs, maxLen, len(kinds), rule))
-			}
-		}
+		totalRuns += sorterTableFor(c, r, inst, maxLen, func(row string) string { return "C12." + row })
 	}
 	r.Count("sorter_abstract_runs", totalRuns)
 	smallModelCheck(c, r, "C12.R1", "sorter", sorter, int64(maxLen))
@@ -312,7 +237,9 @@ func (o *sort2Oracle) Call(ip *absint.Interp, site ssa.CallInstruction, args []a
 	return nil, false
 }
 
-func c12R4(c *core.Ctx, r *core.Report, sortFn *ssa.Function) {
+func c12R4(c *core.Ctx, r *core.Report, sortFn *ssa.Function) { c12R4On(c, r, sortFn, "C12.R4") }
+
+func c12R4On(c *core.Ctx, r *core.Report, sortFn *ssa.Function, rule string) {
 	// pick any instantiation (all share the generic body); fall back to call-site instances
 	var insts []*ssa.Function
 	for fn := range c.AllFns {
@@ -321,7 +248,7 @@ func c12R4(c *core.Ctx, r *core.Report, sortFn *ssa.Function) {
 		}
 	}
 	sort.Slice(insts, func(i, j int) bool { return insts[i].String() < insts[j].String() })
-	if !r.Floor("C12.R4", "instances of sort2.Slice", len(insts), 1) {
+	if !r.Floor(rule, "instances of sort2.Slice", len(insts), 1) {
 		return
 	}
 	for _, inst := range insts {
@@ -334,15 +261,15 @@ func c12R4(c *core.Ctx, r *core.Report, sortFn *ssa.Function) {
 		cons := "sort2.Slice[" + typeArgs(inst) + "]"
 		switch {
 		case out.Undecided != nil:
-			r.Undecided("C12.R4", cons, c.FnPos(inst), out.Undecided.Msg)
+			r.Undecided(rule, cons, c.FnPos(inst), out.Undecided.Msg)
 		case out.Panic != nil:
-			r.Fail("C12.R4", cons, c.FnPos(inst), "panics: "+out.Panic.Msg)
+			r.Fail(rule, cons, c.FnPos(inst), "panics: "+out.Panic.Msg)
 		case orc.calls != 1:
-			r.Fail("C12.R4", cons, c.FnPos(inst), fmt.Sprintf("delegates to sort.Slice %d times (want exactly 1)", orc.calls))
+			r.Fail(rule, cons, c.FnPos(inst), fmt.Sprintf("delegates to sort.Slice %d times (want exactly 1)", orc.calls))
 		case orc.problem != "":
-			r.Fail("C12.R4", cons, c.FnPos(inst), orc.problem)
+			r.Fail(rule, cons, c.FnPos(inst), orc.problem)
 		default:
-			r.Hold("C12.R4", cons, c.FnPos(inst), "delegates once to sort.Slice with less(x[i],x[j]) for the closure's (i,j); comparisons seen: "+strings.Join(orc.seen, " "))
+			r.Hold(rule, cons, c.FnPos(inst), "delegates once to sort.Slice with less(x[i],x[j]) for the closure's (i,j); comparisons seen: "+strings.Join(orc.seen, " "))
 		}
 	}
 }
@@ -529,4 +456,105 @@ func c12R5(c *core.Ctx, r *core.Report, ro *core.Roles, sorter *ssa.Function) {
 			r.Hold("C12.R5", cons, pos, "list is extended by one element per iteration of a forward range over the sorted registration list")
 		}
 	}
+}
+
+// sorterTableFor interprets one sorter instance on every abstract list up to maxLen and reports rows under rule ids
+// given by ruleOf (shared by C12 and C13).
+func sorterTableFor(c *core.Ctx, r *core.Report, inst *ssa.Function, maxLen int, ruleOf func(row string) string) int {
+	ordN, priN := c.Named("definition", "Ordered"), c.Named("definition", "Priority")
+	sortFn := c.Func("util/sort2", "Slice")
+	name := core.FnName(inst) + "[" + typeArgs(inst) + "]"
+	kinds := sorterKinds()
+	bad := map[string][]string{}
+	runs := 0
+	undec := ""
+	var rec func(prefix []int)
+	rec = func(prefix []int) {
+		if undec != "" {
+			return
+		}
+		in := &absint.List{IsNil: len(prefix) == 0}
+		for i, k := range prefix {
+			in.Elems = append(in.Elems, mkSorterTok(i, kinds[k]))
+		}
+		orc := &sorterOracle{c: c, ordered: ordN, priority: priN, sortFn: sortFn}
+		ip := absint.New(orc)
+		ip.IsLog = core.IsLogCall
+		ip.InScope = c.InScope
+		orig := append([]absint.Value(nil), in.Elems...)
+		out := ip.Run(inst, []absint.Value{in}, nil)
+		runs++
+		label := absint.Show(&absint.List{Elems: orig})
+		switch {
+		case out.Undecided != nil:
+			undec = out.Undecided.Msg
+			return
+		case out.Panic != nil:
+			addBad(bad, "R1 total", label+" => panic "+out.Panic.Msg)
+		default:
+			res, ok := out.Ret[0].(*absint.List)
+			if !ok {
+				addBad(bad, "R1 permutation", label+" => "+absint.Show(out.Ret[0]))
+				break
+			}
+			cnt := map[absint.Value]int{}
+			for _, e := range orig {
+				cnt[e]++
+			}
+			perm := len(res.Elems) == len(orig)
+			for _, e := range res.Elems {
+				cnt[e]--
+				if cnt[e] < 0 {
+					perm = false
+				}
+			}
+			if !perm {
+				addBad(bad, "R1 permutation", label+" => "+absint.Show(res))
+				break
+			}
+			prevRank := -1
+			var prevOrder int64
+			first := true
+			for _, e := range res.Elems {
+				t := e.(*absint.Tok)
+				rk := rank(t.Class)
+				if rk < prevRank {
+					addBad(bad, "R2 grouping", label+" => "+absint.Show(res))
+					break
+				}
+				if rk > prevRank {
+					first = true
+				}
+				if rk < 2 {
+					o := int64(t.Attr["order"].(absint.Int))
+					if !first && o < prevOrder {
+						addBad(bad, "R3 non-decreasing Order", label+" => "+absint.Show(res))
+						break
+					}
+					prevOrder, first = o, false
+				}
+				prevRank = rk
+			}
+		}
+		if len(prefix) < maxLen {
+			for k := range kinds {
+				rec(append(append([]int(nil), prefix...), k))
+			}
+		}
+	}
+	rec(nil)
+	if undec != "" {
+		r.Undecided(ruleOf("R1"), "sorter:"+name, c.FnPos(inst), "abstract interpretation left the model: "+undec)
+		return runs
+	}
+	for _, rule := range []string{"R1 total", "R1 permutation", "R2 grouping", "R3 non-decreasing Order"} {
+		id := ruleOf(strings.Fields(rule)[0])
+		cons := "sorter:" + name + ":" + strings.Join(strings.Fields(rule)[1:], "-")
+		if w := bad[rule]; len(w) > 0 {
+			r.Fail(id, cons, c.FnPos(inst), fmt.Sprintf("%d of %d abstract inputs violate '%s'", len(w), runs, rule), firstN(w, 4)...)
+		} else {
+			r.Hold(id, cons, c.FnPos(inst), fmt.Sprintf("all %d abstract lists (len<=%d over %d kinds incl. extreme Order values) satisfy '%s'", runs, maxLen, len(kinds), rule))
+		}
+	}
+	return runs
 }
